@@ -27,6 +27,8 @@ type witnessFile struct {
 	Expect    *nativeOut `json:"engine_expectation,omitempty"`
 	// for harnesses that only run in the engine (crash model, stubs): the decision
 	// prefix that re-executes the counterexample path
+	SchedOps     json.RawMessage `json:"sched_ops,omitempty"`
+	Ops          []opRec      `json:"ops,omitempty"`
 	EngineOnly   bool         `json:"engine_only,omitempty"`
 	EnginePrefix []prefixStep `json:"engine_prefix,omitempty"`
 }
@@ -53,6 +55,8 @@ type nativeOut struct {
 	AssumeFail string   `json:"assume_fail,omitempty"`
 	Panic      string   `json:"panic,omitempty"`
 	Missing    []string `json:"missing_vars,omitempty"`
+	SchedReport string  `json:"sched_report,omitempty"`
+	Sequenced  bool     `json:"sequenced,omitempty"`
 }
 
 type replayJob struct {
@@ -61,6 +65,9 @@ type replayJob struct {
 	wf   string // witness file
 	out  *nativeOut
 	err  string
+	// sequenced replay: the schedule and the instrumented source files
+	schedOps     json.RawMessage
+	extraOverlay map[string][]byte
 }
 
 func makeWitness(prop string, hr *HarnessResult, p *PathResult, tier int) witnessFile {
@@ -110,7 +117,9 @@ func (r *CheckRun) runNative(pkgDir string, jobs []*replayJob) error {
 	for i, j := range jobs {
 		if j.wf == "" {
 			j.wf = filepath.Join(wdir, fmt.Sprintf("%04d.witness.json", i))
-			b, _ := json.Marshal(makeWitness(r.Prop, j.hr, j.path, r.tierN()))
+			w := makeWitness(r.Prop, j.hr, j.path, r.tierN())
+			w.SchedOps = j.schedOps
+			b, _ := json.Marshal(w)
 			if err := os.WriteFile(j.wf, b, 0o644); err != nil {
 				return err
 			}
@@ -143,6 +152,29 @@ func (r *CheckRun) runNative(pkgDir string, jobs []*replayJob) error {
 		}
 	}
 	sort.Strings(harnessNames)
+	// sequenced replay: instrumented sources, the sequencer package and its glue
+	nExtra := 0
+	for _, j := range jobs {
+		for p, src := range j.extraOverlay {
+			nExtra++
+			f := filepath.Join(tmp, fmt.Sprintf("seq%d_%s", nExtra, filepath.Base(p)))
+			os.WriteFile(f, src, 0o644)
+			ov[p] = f
+		}
+	}
+	if nExtra > 0 {
+		seqSrc, err := os.ReadFile(filepath.Join(r.Verif, "harness", "vf", "vfsched.go.src"))
+		if err != nil {
+			return err
+		}
+		f := filepath.Join(tmp, "vfsched.go")
+		os.WriteFile(f, seqSrc, 0o644)
+		ov[filepath.Join(r.Repo, "internal", "vfsched", "vfsched.go")] = f
+		glue := fmt.Sprintf("package %s\n\nimport vfsched %q\n\nfunc init() {\n\tvfSchedLoad, vfSchedChild, vfSchedEnter, vfSchedReport = vfsched.Load, vfsched.ChildID, vfsched.Enter, vfsched.Report\n}\n", pkgName, r.modulePath()+"/internal/vfsched")
+		gf := filepath.Join(tmp, "zz_verif_schedglue.go")
+		os.WriteFile(gf, []byte(glue), 0o644)
+		ov[filepath.Join(r.Repo, pkgDir, "zz_verif_schedglue.go")] = gf
+	}
 	var drv bytes.Buffer
 	fmt.Fprintf(&drv, "package %s\n\nimport (\n\t\"os\"\n\t\"path/filepath\"\n\t\"sort\"\n\t\"strings\"\n\t\"testing\"\n\t\"testing/synctest\"\n)\n\n", pkgName)
 	fmt.Fprintf(&drv, "func TestVerifReplay(t *testing.T) {\n\tfns := map[string]func(){\n")
@@ -337,6 +369,10 @@ func (r *CheckRun) ReplayFile(path string) int {
 		return 2
 	}
 	job := &replayJob{hr: &HarnessResult{Name: w.Harness}, wf: path}
+	if len(w.Ops) > 0 && len(w.SchedOps) > 0 {
+		// a schedule-dependent counterexample: instrument the same statements again
+		_, job.extraOverlay, _ = r.buildSchedule(w.Ops)
+	}
 	if err := r.runNative(dir, []*replayJob{job}); err != nil {
 		fmt.Fprintln(os.Stderr, err)
 		return 2
